@@ -278,6 +278,29 @@ PINNED = {
         lib=[("c", ["-O1", "-fPIC"], "int lf(int x) { return x + 1; }\ntypedef int (*fp)(int);\nfp lib_addr(void) { return lf; }\n")],
         kinds=["shared-nopie"]),
 }
+def _bigstr_unit(tag, n, width):
+    """A unit with n distinct string literals of exactly `width` bytes (with the NUL), so that every
+    multiple of `width` in the merged-string input is the start of a referenced string."""
+    def lit(i):
+        head = f"{tag}{i:05d}:"
+        return head + "".join(chr(97 + (i * 7 + k) % 26) for k in range(width - 1 - len(head)))
+    rows = ",\n".join(f'  "{lit(i)}"' for i in range(n))
+    return (f'#include <string.h>\nstatic const char *const T_{tag}[{n}] = {{\n{rows}\n}};\n'
+            f'int check_{tag}(unsigned long *sum) {{\n  int bad = 0; char want[{width}];\n  for (int i = 0; i < {n}; i++) {{\n'
+            f'    int h = __builtin_sprintf(want, "{tag}%05d:", i);\n'
+            f'    for (int k = 0; k < {width} - 1 - h; k++) want[h + k] = (char)(97 + (i * 7 + k) % 26);\n    want[{width} - 1] = 0;\n'
+            f'    if (strcmp(T_{tag}[i], want)) bad++;\n    *sum = *sum * 31 + (unsigned char)T_{tag}[i][{width} - 2];\n  }}\n  return bad;\n}}\n')
+
+
+PINNED["big-string-tables"] = dict(
+    units=[("c", ["-O1", "-fpie"], '#include <stdio.h>\nextern int check_a(unsigned long *), check_b(unsigned long *), check_c(unsigned long *);\n'
+            'int main() { unsigned long s = 0; int bad = check_a(&s) + check_b(&s) + check_c(&s);\n'
+            '  printf("str m:bad = %d\\nstr m:sum = %lu\\n", bad, s); return 0; }\n'),
+           ("c", ["-O1", "-fpie"], _bigstr_unit("a", 2600, 64)),
+           ("c", ["-O1", "-fpie"], _bigstr_unit("b", 5000, 32)),
+           ("c", ["-O1", "-fpie"], _bigstr_unit("c", 1500, 128))],
+    kinds=["static", "pie", "dyn"])
+
 PIN_KARGS = {"static": ["-static", "-no-pie"], "static-pie": ["-static-pie"], "pie": ["-pie"], "dyn": ["-no-pie"], "shared-nopie": ["-no-pie"]}
 
 
